@@ -6,7 +6,7 @@ from . import c16 as _c16
 from . import c15 as _c15
 
 ID = "C12"
-PROPS_FILES = ["Props/C12", "Props/C12Highp"]
+PROPS_FILES = ["Props/C12", "Props/C12Highp", "Props/FixedPoint"]
 ALL_FRAGMENTS = True
 TRUSTED = c08.TRUSTED
 ASSUMPTIONS = [
